@@ -554,7 +554,7 @@ PROPS["C07"] = dict(
               "BB.Props.C07.one_send_at_a_time", "BB.Props.C07.no_membership_section_during_send", "BB.Props.C07.sends_left_are_all_owed",
               "BB.Props.C07.no_deadlock", "BB.PubSub.pinv12_reach", "BB.LockOrder.no_wait_cycle"],
     corr=[dict(family="pubsub", quick=150, thorough=6000, monitor=ps_monitor, no_shrink=True,
-               nontrivial=has("absorb", "unsub_during_send_phase", "unsub_try_failed", "unsub_spin", "unsub_between_ping_add_and_cas", "cas_failed_by_racing_unsubscribe"),
+               nontrivial=has("absorb", "unsub_during_send_phase", "unsub_try_failed", "unsub_spin", "unsub_between_ping_add_and_cas", "cas_failed_by_racing_unsubscribe", "nil_yield_after_cancel"),
                rule=_PS_RULE + "; non-trivial = unsubscribes that fail TryRLock (spin, see the Send in progress, route the decrement through the caster)")],
     assumptions=PROPS["C06"]["assumptions"] if "C06" in PROPS else [],
     open_statements=["termination as a leadsTo theorem under fairness (proved: no_deadlock = while any call is pending a step other than the unsubscribe spin is enabled); "
